@@ -133,8 +133,10 @@ theorem psi_popAdvance (W : World) (P : Nat) (t : Th) :
 
 theorem psi_enterFinally (W : World) (P : Nat) (t : Th) :
     psi W P (enterFinally W false t) ≤ t.rn.length + costU (uz t) + rz W P t := by
-  have := psi_popAdvance W P { t with popIt := t.rn }
-  simpa [enterFinally, uz, rz] using this
+  have := psi_popAdvance W P { t with popIt := if t.exc.isSome then [] else t.rn }
+  have hl : (if t.exc.isSome then ([] : List Nat) else t.rn).length ≤ t.rn.length := by split <;> simp
+  simp only [enterFinally, uz, rz, Bool.false_eq_true, if_false] at this ⊢
+  omega
 
 theorem psi_clearAdvance (W : World) (P : Nat) (t : Th) :
     psi W P (clearAdvance W false t) ≤ 2 * t.clrIt.length + t.rn.length + costU (uz t) + rz W P t := by
